@@ -22,6 +22,7 @@ import (
 	"os"
 	"path/filepath"
 	"regexp"
+	"sort"
 	"strings"
 	"sync"
 	"time"
@@ -393,6 +394,30 @@ func (e *env) directed(rng *rand.Rand) {
 	if presentBlob != "" {
 		// an unsatisfiable byte range on existing content is a client mistake too
 		cases = append(cases, dc{"unsatisfiable-range", vh.Req{Method: "GET", URL: "/v2/r/blobs/" + presentBlob, H: map[string]string{"Range": "bytes=99999999-"}}, []string{"SIZE_INVALID", "BLOB_UNKNOWN", "UNSUPPORTED"}, any, ""})
+	}
+	{
+		// ... and on a manifest, by digest and by tag, with an Accept list that matches
+		var presentMan string
+		for d := range m.Mans {
+			if m.Visible(d) && (presentMan == "" || d < presentMan) {
+				presentMan = d
+			}
+		}
+		if presentMan != "" {
+			for _, rg := range []string{"bytes=99999999-", "bytes=2-1"} {
+				cases = append(cases, dc{"unsatisfiable-range:manifest", vh.Req{Method: "GET", URL: "/v2/r/manifests/" + presentMan, H: map[string]string{"Range": rg, "Accept": vh.AcceptAll}}, []string{"SIZE_INVALID", "MANIFEST_UNKNOWN", "MANIFEST_BLOB_UNKNOWN", "UNSUPPORTED"}, any, ""})
+			}
+		}
+		var tgs []string
+		for t, d := range m.Tags {
+			if m.Visible(d) {
+				tgs = append(tgs, t)
+			}
+		}
+		sort.Strings(tgs)
+		if len(tgs) > 0 {
+			cases = append(cases, dc{"unsatisfiable-range:manifest", vh.Req{Method: "GET", URL: "/v2/r/manifests/" + tgs[0], H: map[string]string{"Range": "bytes=99999999-", "Accept": vh.AcceptAll}}, []string{"SIZE_INVALID", "MANIFEST_UNKNOWN", "MANIFEST_BLOB_UNKNOWN", "UNSUPPORTED"}, any, ""})
+		}
 	}
 	// a mount whose source name is outside the grammar must not reach storage: it cannot be answered "mounted" (201)
 	{
